@@ -143,7 +143,19 @@ Verdict runCase(Ctx& c, bool maxPart, const sgen::Spec& sp, const Sel& sel, uint
         break;
       case 1: if (schema.SetAliasFor(A, std::string(1, aliasA[0]) + std::to_string(40 + e.b), e.flag)) c.label(e.flag ? "pre-edit:rename-with-substitution" : "pre-edit:rename-leaving-mentions"); break;
       case 2: if (schema.GetRS(A).type != CstType::base && schema.GetRS(A).type != CstType::constant && schema.SetExpressionFor(A, aliasB)) c.label("pre-edit:definition"); break;  // base sets carry no definition
-      default: if (schema.Erase(A)) c.label("pre-edit:erase"); break;
+      case 3: if (schema.Erase(A)) c.label("pre-edit:erase"); break;
+      default: {  // an exact copy of A under a fresh identifier, B re-defined over the copy, then duplicate elimination: B's
+                  // mentions are rewritten to A and the dependency graph must follow
+        if (A == B || schema.GetRS(A).type == CstType::base || schema.GetRS(A).type == CstType::constant || schema.GetRS(A).definition.empty()) break;
+        if (schema.GetRS(B).type != CstType::term) break;
+        auto rec = schema.Core().AsRecord(A); rec.uid = 0x40000000u + static_cast<EntityUID>(e.b);
+        const auto copy = schema.InsertCopy(rec);
+        const std::string copyAlias = schema.GetRS(copy).alias;
+        if (!schema.SetExpressionFor(B, copyAlias + "\xE2\x88\xAA" + copyAlias)) break;
+        (void)schema.Ops().DeleteDuplicates();
+        c.label(schema.Contains(copy) ? "pre-edit:duplicate-kept" : "pre-edit:duplicate-eliminated-under-a-dependant");
+        break;
+      }
     }
   }
   const Snap before = sgen::snapshot(schema);
@@ -230,9 +242,9 @@ Verdict propEdited(Ctx& c) {
   const Sel s = genSel(c, sp, maxPart);
   std::vector<PreEdit> edits;
   const int k = c.ipick(1, 3);
-  for (int i = 0; i < k; ++i) { PreEdit e; const int w = c.ipick(0, 9); e.kind = w < 5 ? 0 : w < 7 ? 1 : w < 9 ? 2 : 3; e.a = c.ipick(0, 11); e.b = c.ipick(0, 11); e.flag = c.coin(); edits.push_back(e); }
+  for (int i = 0; i < k; ++i) { PreEdit e; const int w = c.ipick(0, 9); e.kind = w < 3 ? 0 : w < 5 ? 1 : w < 6 ? 2 : w < 7 ? 3 : 4; e.a = c.ipick(0, 11); e.b = c.ipick(0, 11); e.flag = c.coin(); edits.push_back(e); }
   showCase(c, maxPart ? "maxpart (edited source)" : "basis (edited source)", sp, s, idSeed);
-  c.show << "\n  pre-edits:"; for (auto& e : edits) c.show << " " << (e.kind == 0 ? "exchange-aliases" : e.kind == 1 ? (e.flag ? "rename+subst" : "rename") : e.kind == 2 ? "set-definition" : "erase") << "(#" << e.a << ",#" << e.b << ")";
+  c.show << "\n  pre-edits:"; for (auto& e : edits) c.show << " " << (e.kind == 0 ? "exchange-aliases" : e.kind == 1 ? (e.flag ? "rename+subst" : "rename") : e.kind == 2 ? "set-definition" : e.kind == 3 ? "erase" : "copy+redefine+delete-duplicates") << "(#" << e.a << ",#" << e.b << ")";
   return runCase(c, maxPart, sp, s, idSeed, edits);
 }
 
